@@ -242,6 +242,10 @@ fn ffi_batch(rep: &Report, jobs: &[(Tuple, u8)], tag: &str) {
                 let f: Vec<(String, String)> = serde_json::from_str(js).unwrap_or_default();
                 for (clause, msg) in f {
                     let mut j = t.json(if *m == 0 { "ffi" } else if *m == 4 { "ffi-concurrent" } else { "ffi-overlap" });
+                    // the call made just before it in the same process is part of the case (state kept between calls)
+                    if i > 0 && jobs[i - 1].1 != 3 {
+                        j["previous"] = jobs[i - 1].0.json("ffi");
+                    }
                     // calls with rejected parameters that came before it in the same process are part of the case
                     if let Some((rj, _)) = jobs[..i].iter().rev().find(|(_, mm)| *mm == 3) {
                         j["after_rejected"] = rj.json("ffi");
@@ -552,9 +556,19 @@ fn after_rejected_calls(rep: &Report) {
     rep.extra("concurrent_c_calls", json!({"threads":4,"rounds":200,"tuples":2,"note":"free-running threads: a sample of schedules"}));
 }
 
+/// For other checks: the exported C function at the parameters of the key-lock format (N = 32768, r = 8, p = 1, 32 bytes) for
+/// the given passwords and salt, in child processes, each compared with REF.
+pub fn ffi_at_lock_parameters(rep: &Report, pws: &[Vec<u8>], salt: &[u8; 32]) {
+    let jobs: Vec<(Tuple, u8)> = pws.iter().map(|pw| (Tuple { pw: pw.clone(), salt: salt.to_vec(), n: 32768, r: 8, p: 1, dk: 32 }, 0u8)).collect();
+    let nb = 8usize;
+    let slices: Vec<Vec<(Tuple, u8)>> = (0..nb).map(|k| jobs.iter().skip(k).step_by(nb).cloned().collect()).collect();
+    slices.par_iter().enumerate().for_each(|(k, sl)| ffi_batch(rep, sl, &format!("lock-parameters-{}", k)));
+}
+
 pub fn run(rep: &'static Report) {
     let seed = rep.seed;
     rep.set_rule("E-GRID vs OpenSSL EVP_PBE_scrypt: full product N x r x p x dkLen, each axis swept completely with the others small, corner tuples, password/salt length grid incl. 0/63/64/65 and trailing-NUL variants; every tuple through the library and through the exported C function (dlopen of the cdylib built from the working tree) with guard bytes around all buffers. distinct non-trivial = distinct (via, password, salt, N, r, p, dkLen) tuples");
+    rep.rule_add("Ordered call pairs with changing password/salt lengths (7 x 7) on one thread, library and C function.");
     rep.rule_add("ordered call pairs on one thread; aliasing; child processes under a grid of address-space limits (library and C ABI).");
     rep.rule_add("Child processes confined to 1/2/3/5/all processors x p in 1..8,17 x lane tables >= 2 MiB; valid C calls after each of 8 rejected calls in one process.");
     rep.assume("password/salt byte values from seed-derived alphabets; N <= 2^15; OpenSSL is the RFC 7914 reference");
@@ -595,6 +609,21 @@ pub fn run(rep: &'static Report) {
             }
         }
         ffi_batch(rep, &seq, "pairs");
+        // the same with password and salt LENGTHS changing between the two calls (longer then shorter and the reverse):
+        // a buffer kept between calls would lend the second call bytes or a length of the first
+        let lens = [(0usize, 0usize), (3, 5), (9, 7), (20, 1), (1, 20), (64, 64), (65, 3)];
+        let lalpha: Vec<Tuple> = lens.iter().map(|&(pl, sl)| Tuple { pw: derive(seed, "c18-len-pw", pl), salt: derive(seed, "c18-len-salt", sl), n: 16, r: 2, p: 1, dk: 32 }).collect();
+        let mut lseq: Vec<(Tuple, u8)> = vec![];
+        for a in &lalpha {
+            for b in &lalpha {
+                lib_case(rep, a);
+                lib_case(rep, b);
+                lseq.push((a.clone(), 0));
+                lseq.push((b.clone(), 0));
+                pairs += 1;
+            }
+        }
+        ffi_batch(rep, &lseq, "length-pairs");
         rep.add_distinct(pairs);
         rep.extra("consecutive_call_pairs_on_one_thread", json!(pairs));
     }
@@ -645,6 +674,13 @@ pub fn replay(rep: &'static Report, case: &Value) {
         return;
     }
     if case["via"] == "ffi" {
+        if let Some(pv) = case.get("previous").filter(|v| !v.is_null()) {
+            let pt = Tuple { pw: unhx(pv["pw"].as_str().unwrap()), salt: unhx(pv["salt"].as_str().unwrap()), n: pv["n"].as_u64().unwrap() as u32, r: pv["r"].as_u64().unwrap() as u32, p: pv["p"].as_u64().unwrap() as u32, dk: pv["dk"].as_u64().unwrap() as usize };
+            if case.get("after_rejected").map(|v| v.is_null()).unwrap_or(true) {
+                ffi_batch(rep, &[(pt, 0), (t, 0)], "replay");
+                return;
+            }
+        }
         if let Some(rj) = case.get("after_rejected").filter(|v| !v.is_null()) {
             let rt = Tuple { pw: unhx(rj["pw"].as_str().unwrap()), salt: unhx(rj["salt"].as_str().unwrap()), n: rj["n"].as_u64().unwrap() as u32, r: rj["r"].as_u64().unwrap() as u32, p: rj["p"].as_u64().unwrap() as u32, dk: rj["dk"].as_u64().unwrap() as usize };
             ffi_batch(rep, &[(rt, 3), (t, 0)], "replay");
